@@ -530,6 +530,7 @@ func main() {
 	if d2 := tableDigest(tableFor(r.Seed, r.Tier)); d2 != digest {
 		r.Fatal("case table is not a deterministic function of the seed")
 	}
+	selfTest(r, tbl)
 	nBig := 0
 	for i := range tbl {
 		r.SetAdd("methods", tbl[i].Method)
@@ -613,6 +614,19 @@ func judgeValues(r *vh.Run, tbl []caseSpec, runs []*kindRun) {
 			}
 			if res.HasErr {
 				r.Count("client_errors_"+c.Method, 1)
+			}
+			if c.Shape == "combo" {
+				switch {
+				case res.HasErr:
+					r.Count("combinations_client_error", 1)
+				case len(res.Diffs) == 0:
+					r.Count("combinations_compared_equal", 1)
+					if len(c.Items) >= 2 {
+						r.Count("combinations_multi_item_compared_equal", 1)
+					}
+				default:
+					r.Count("combinations_compared_different", 1)
+				}
 			}
 			if res.FirstErr != "" {
 				r.Count("failed_only_with_other_calls_in_flight", 1)
@@ -803,6 +817,19 @@ func emit(r *vh.Run, findings []finding) {
 	for i, k := range kit.AllKinds {
 		kindPos[k] = i
 	}
+	// the three witnesses kept per signature should be simple values on different transport families
+	for i, k := range []kit.Kind{kit.SJSON, kit.LSSE, kit.Stdio, kit.SSSE, kit.SLJSON, kit.SLSSE, kit.SNoSess} {
+		kindPos[k] = i
+	}
+	classRank := func(c string) int {
+		switch c {
+		case "ascii", "b64-small":
+			return 0
+		case "":
+			return 1
+		}
+		return 2
+	}
 	sort.SliceStable(order, func(a, b int) bool {
 		fa, fb := findings[order[a]], findings[order[b]]
 		if fa.Method != fb.Method {
@@ -811,7 +838,32 @@ func emit(r *vh.Run, findings []finding) {
 		if tails[order[a]] != tails[order[b]] {
 			return tails[order[a]] < tails[order[b]]
 		}
+		if ra, rb := classRank(fa.Class), classRank(fb.Class); ra != rb {
+			return ra < rb
+		}
 		return kindPos[fa.Kind] < kindPos[fb.Kind]
+	})
+	// second pass: the n-th finding of a transport within a signature goes after the (n-1)-th of every other one
+	type occKey struct {
+		method, tail string
+		kind         kit.Kind
+	}
+	occSeen := map[occKey]int{}
+	occ := make([]int, len(findings))
+	for _, i := range order {
+		k := occKey{findings[i].Method, tails[i], findings[i].Kind}
+		occ[i] = occSeen[k]
+		occSeen[k]++
+	}
+	sort.SliceStable(order, func(a, b int) bool {
+		fa, fb := findings[order[a]], findings[order[b]]
+		if fa.Method != fb.Method {
+			return fa.Method < fb.Method
+		}
+		if tails[order[a]] != tails[order[b]] {
+			return tails[order[a]] < tails[order[b]]
+		}
+		return occ[order[a]] < occ[order[b]]
 	})
 	for _, i := range order {
 		f := findings[i]
@@ -1024,6 +1076,9 @@ func runDescriptors(r *vh.Run) {
 		if dd.Field == "client-error" {
 			return "descriptor|client-error"
 		}
+		if strings.HasSuffix(dd.Field, "-missing") || strings.HasSuffix(dd.Field, "-unregistered") || strings.HasSuffix(dd.Field, "-duplicated") {
+			return "descriptor|" + dd.Field
+		}
 		return "descriptor|" + dd.Field + "-differs"
 	}
 	for _, x := range out {
@@ -1063,4 +1118,76 @@ func runDescriptors(r *vh.Run) {
 				map[string]interface{}{"transport": x.kind, "difference": dd})
 		}
 	}
+}
+
+// selfTest guards the comparer against vacuity: every generated value equals an independently built copy of
+// itself, and differs from the value built from the same spec with other salts wherever a string is involved.
+func selfTest(r *vh.Run, tbl []caseSpec) {
+	n := 0
+	for i := range tbl {
+		c := &tbl[i]
+		if c.Big || c.Err != nil {
+			continue
+		}
+		m := *c
+		m.Items = append([]itemSpec{}, c.Items...)
+		changed := false
+		for j := range m.Items {
+			if m.Items[j].Class != "empty" && m.Items[j].Class != "b64-empty" {
+				m.Items[j].Salt++
+				changed = true
+			}
+		}
+		var same, other []diff
+		switch c.Method {
+		case mTool:
+			// the "received" side carries structured content the way a JSON decoder delivers it
+			asReceived := func(x *mcp.CallToolResult) *mcp.CallToolResult {
+				if x.StructuredContent != nil {
+					x.StructuredContent, _ = normalise(x.StructuredContent)
+				}
+				return x
+			}
+			same = cmpTool(c.toolResult(), asReceived(c.toolResult()))
+			other = cmpTool(c.toolResult(), asReceived(m.toolResult()))
+		case mPrompt:
+			same = cmpPrompt(c.promptResult(), c.promptResult(), "")
+			other = cmpPrompt(c.promptResult(), m.promptResult(), "")
+		default:
+			same = cmpRead(c.resContents(), &mcp.ReadResourceResult{Contents: c.resContents()})
+			other = cmpRead(c.resContents(), &mcp.ReadResourceResult{Contents: m.resContents()})
+		}
+		if len(same) != 0 {
+			r.Fatal("self-test: case %d differs from its own rebuild: %+v", i, same[0])
+		}
+		if changed && len(other) == 0 {
+			r.Fatal("self-test: comparer does not see a changed string in case %d (%s | %s)", i, c.kindSeq(), c.classVec())
+		}
+		if changed {
+			n++
+		}
+	}
+	// kind changes, flag changes, count changes, structured changes
+	a := &mcp.CallToolResult{Content: []mcp.Content{mcp.NewTextContent("x")}, StructuredContent: map[string]interface{}{"a": []interface{}{1, "s", nil}}}
+	checks := []struct {
+		name string
+		got  *mcp.CallToolResult
+		sym  string
+	}{
+		{"kind", &mcp.CallToolResult{Content: []mcp.Content{mcp.NewImageContent("x", "y")}, StructuredContent: map[string]interface{}{"a": []interface{}{1.0, "s", nil}}}, "kind-changed"},
+		{"count", &mcp.CallToolResult{StructuredContent: map[string]interface{}{"a": []interface{}{1.0, "s", nil}}}, "item-count"},
+		{"flag", &mcp.CallToolResult{Content: []mcp.Content{mcp.NewTextContent("x")}, IsError: true, StructuredContent: map[string]interface{}{"a": []interface{}{1.0, "s", nil}}}, "iserror-differs"},
+		{"structured", &mcp.CallToolResult{Content: []mcp.Content{mcp.NewTextContent("x")}, StructuredContent: map[string]interface{}{"a": []interface{}{1.0, "s", false}}}, "structured-differs"},
+		{"structured-missing", &mcp.CallToolResult{Content: []mcp.Content{mcp.NewTextContent("x")}}, "structured-differs"},
+	}
+	for _, ck := range checks {
+		ds := cmpTool(a, ck.got)
+		if len(ds) != 1 || ds[0].Symptom != ck.sym {
+			r.Fatal("self-test %s: comparer reported %+v, want one %s", ck.name, ds, ck.sym)
+		}
+	}
+	if ds := cmpTool(a, &mcp.CallToolResult{Content: []mcp.Content{mcp.NewTextContent("x")}, StructuredContent: map[string]interface{}{"a": []interface{}{1.0, "s", nil}}}); len(ds) != 0 {
+		r.Fatal("self-test: equal values reported different: %+v", ds)
+	}
+	r.Count("selftest_mutated_values_detected", int64(n))
 }
